@@ -468,6 +468,9 @@ def run(index: RepoIndex, rep) -> None:
               'functional_step runs the in-place transition on something other than one fresh '
               f'fast_copy of its input state (mutated: `{sw["copy"]}` = `{sw["copy_def"]}`)',
               'no direct in-place transition')
+    # the returned next state is that copy, on every path (never the input handed back)
+    from .wiring import step_on_callers_state
+    step_on_callers_state(index, rep, 'C03.R1')
 
     # ---------------------------------------------------------------- R2
     def check_ro(fn: Func, allowed: Set[str], label: str):
